@@ -64,12 +64,25 @@ func (a *analyzer) visibleCalls() map[*ssa.Function][]callRef {
 				if f == nil {
 					continue
 				}
-				if _, plain := ins.(*ssa.Call); !plain {
-					bad[f] = true // go / defer
-				}
 				calls[f] = append(calls[f], callRef{fi, ins})
 			}
 		}
+	}
+	// the wrappers that the compiler synthesises for promoted methods with an unexported name can only be
+	// reached by a call of that name: when there is none (and no interface has the name, no method value
+	// is taken) the wrapper is dead code and its call of the wrapped method does not count
+	dead := func(g *ssa.Function) bool {
+		return g.Synthetic != "" && g.Synthetic != "package initializer" && g.Signature.Recv() != nil && !token.IsExported(g.Name()) &&
+			!a.addrTkn[g] && !ifaceNames[g.Name()] && len(calls[g]) == 0
+	}
+	for f, cs := range calls {
+		var live []callRef
+		for _, c := range cs {
+			if !dead(c.caller.fn) {
+				live = append(live, c)
+			}
+		}
+		calls[f] = live
 	}
 	out := map[*ssa.Function][]callRef{}
 	for _, fi := range a.fns {
@@ -107,7 +120,18 @@ func (a *analyzer) allInterfaces() []*types.Interface {
 // computeEntryHeld: (C1) the least fixpoint from below.
 func (a *analyzer) computeEntryHeld() {
 	a.entryHeld = map[*ssa.Function]map[string]bool{}
-	vis := a.visibleCalls()
+	vis := map[*ssa.Function][]callRef{}
+	for f, calls := range a.visible {
+		plain := true
+		for _, c := range calls {
+			if _, isCall := c.ins.(*ssa.Call); !isCall {
+				plain = false // go / defer: the locks of the statement are not the locks of the execution
+			}
+		}
+		if plain {
+			vis[f] = calls
+		}
+	}
 	var fs []*ssa.Function
 	for f := range vis {
 		fs = append(fs, f)
@@ -149,6 +173,112 @@ func (a *analyzer) computeEntryHeld() {
 	}
 	// no fixpoint within the bound: fall back to the empty sets (sound)
 	a.entryHeld = map[*ssa.Function]map[string]bool{}
+}
+
+// computeBindings: (C3) parameters of functions all of whose calls are visible stand for the arguments.
+func (a *analyzer) computeBindings() {
+	a.visible = a.visibleCalls()
+	a.bind = map[*ssa.Parameter][]ssa.Value{}
+	for f, calls := range a.visible {
+		ok := true
+		for _, c := range calls {
+			if len(c.ins.(ssa.CallInstruction).Common().Args) != len(f.Params) {
+				ok = false
+			}
+		}
+		if !ok {
+			delete(a.visible, f)
+			continue
+		}
+		for i, p := range f.Params {
+			for _, c := range calls {
+				a.bind[p] = append(a.bind[p], c.ins.(ssa.CallInstruction).Common().Args[i])
+			}
+		}
+	}
+}
+
+// visibleResults: (C3) the values that the static callee of c returns as result i, when all its calls are visible.
+func (a *analyzer) visibleResults(c *ssa.Call, i int) []ssa.Value {
+	f := c.Call.StaticCallee()
+	if f == nil || a.visible[f] == nil {
+		return nil
+	}
+	var out []ssa.Value
+	for _, b := range f.Blocks {
+		for _, ins := range b.Instrs {
+			if r, ok := ins.(*ssa.Return); ok && i < len(r.Results) {
+				out = append(out, r.Results[i])
+			}
+		}
+	}
+	return out
+}
+
+// computeSentinels: (C4) a package-level variable of the interface type `error` whose only store in the
+// two packages is the one in the package initialiser, of the result of errors.New or fmt.Errorf, and whose
+// address is never taken, names an object of the standard library without any exported way to change it
+// (*errors.errorString, *fmt.wrapError): handing it out (a sentinel error that callers compare by
+// identity) shares no mutable memory between module sets, so it is not a leak in the sense of
+// NoGlobalEscapes.  Any second store, or a value of another origin, makes it an ordinary variable again.
+func (a *analyzer) computeSentinels() {
+	a.sentinelErr = map[string]bool{}
+	good := map[*ssa.Global]bool{}
+	bad := map[*ssa.Global]bool{}
+	for _, fi := range a.fns {
+		isInit := fi.fn.Synthetic == "package initializer"
+		for _, b := range fi.fn.Blocks {
+			for _, ins := range b.Instrs {
+				st, isStore := ins.(*ssa.Store)
+				for _, op := range ins.Operands(nil) {
+					g, ok := (*op).(*ssa.Global)
+					if !ok {
+						continue
+					}
+					if isStore && st.Addr == g {
+						if isInit && !good[g] && sentinelValue(st.Val) {
+							good[g] = true
+						} else {
+							bad[g] = true
+						}
+						continue
+					}
+					if u, isLoad := ins.(*ssa.UnOp); isLoad && u.Op == token.MUL && u.X == g {
+						continue // a plain read of the variable
+					}
+					bad[g] = true // its address goes somewhere
+				}
+			}
+		}
+	}
+	for g := range good {
+		if bad[g] || g.Pkg == nil || !a.ours[g.Pkg.Pkg.Path()] {
+			continue
+		}
+		if p, ok := g.Type().(*types.Pointer); !ok || p.Elem().String() != "error" {
+			continue
+		}
+		a.sentinelErr[a.globalName(g)] = true
+	}
+}
+
+func sentinelValue(v ssa.Value) bool {
+	if mi, ok := v.(*ssa.MakeInterface); ok {
+		v = mi.X
+	}
+	if ci, ok := v.(*ssa.ChangeInterface); ok {
+		v = ci.X
+	}
+	c, ok := v.(*ssa.Call)
+	if !ok {
+		return false
+	}
+	f := c.Call.StaticCallee()
+	if f == nil || f.Pkg == nil {
+		return false
+	}
+	name := f.Pkg.Pkg.Path() + "." + f.Name()
+	return name == "errors.New" || name == "fmt.Errorf"
 }
 
 // computeAnchors: (C2); needs the call sites of collect().
